@@ -16,6 +16,7 @@ LEVEL_TEXT = ('Proof: delta, delta-max (unbounded dmax_swap via a delta-preservi
               'coefficients and Omega are invariant under reversal and charge inversion, and depend only on charge classes '
               '(Omega: on {P,E,D,K,R} membership) — theorems over the model for all sequences. Tie: charge table, Omega lists, '
               'candidate search regenerated from source; metamorphic pairs run through the real getters and compared in Coq.')
+LEVEL_NOTE_MINIPY = ' Whole-function semantic ties (source translated to Core/MiniPy terms on every run, proved equal to the model for all inputs): Omega / Omega_seq.'
 LEVEL_NOTE = 'Closed under the global context (no axioms). Trusts py2coq, harness transforms, tolerance 1e-9.'
 TECHNIQUE = 'Coq proof (list reversal/negation algebra, candidate-family cover lemma) + in-Coq metamorphic correspondence'
 
